@@ -3,17 +3,35 @@ From AB Require Import Model.ClientState Spec.C11.
 Section P.
 Variables sess0 cook0 : amap.
 Notation run := (cs_run sess0 cook0).
+Notation step := (cs_step sess0 cook0).
 Notation plain := (plain sess0 cook0).
+Notation trace := (cs_trace sess0 cook0).
 
 Lemma flush_eq ls lc :
   flush ls lc = (match ls with [] => [] | l => [TStore Sess l] end) ++
                 (match lc with [] => [] | l => [TStore Cook l] end).
 Proof. destruct ls, lc; reflexivity. Qed.
 
+(* with no failure pending, putClientState is the fault-free flush *)
+Lemma put_cs_fault_free s : fail_s s = false -> fail_c s = false ->
+  put_cs s = ({| ps := ps s; pc := pc s; written := true; fail_s := false; fail_c := false |},
+              flush (ps s) (pc s), false).
+Proof.
+  destruct s as [ls lc w fs fc]; simpl; intros -> ->.
+  destruct ls, lc; reflexivity.
+Qed.
+
+Lemma step_write_written s w : is_write w = true -> written (fst (step s w)) = true.
+Proof.
+  destruct s as [ls lc wr fs fc].
+  destruct w; try discriminate; intros _; simpl; destruct wr; simpl; auto;
+    destruct ls, lc, fs, fc; reflexivity.
+Qed.
+
 Lemma run_written s p : written s = true -> run s p = flat_map plain p.
 Proof.
   revert s; induction p as [|o r IH]; intros s H; simpl; auto.
-  destruct o as [[|] e d|c d|b d|st k]; simpl; rewrite ?H; simpl; rewrite IH; auto.
+  destruct o as [[|] e d|c d|b d|st k|[|]]; simpl; rewrite ?H; simpl; rewrite IH; auto.
 Qed.
 
 Lemma evs_of_app st a b : evs_of st (a ++ b) = evs_of st a ++ evs_of st b.
@@ -22,57 +40,197 @@ Proof.
   destruct o; auto. destruct (store_eqb s st); simpl; rewrite IH; auto.
 Qed.
 
+Lemma post_hd p w r : post p = w :: r -> is_write w = true.
+Proof.
+  induction p as [|o p IH]; simpl; [discriminate|].
+  destruct (is_write o) eqn:E; auto. intros H; inversion H; subst; auto.
+Qed.
+
 (* generalised over an arbitrary not-yet-written writer state *)
 Lemma run_gen s p : written s = false ->
   run s p =
     flat_map plain (pre p) ++
-    (if existsb is_write p
-     then flush (ps s ++ evs_of Sess (pre p)) (pc s ++ evs_of Cook (pre p)) else []) ++
-    flat_map plain (post p).
+    match post p with
+    | [] => []
+    | w :: r =>
+        snd (step {| ps := ps s ++ evs_of Sess (pre p); pc := pc s ++ evs_of Cook (pre p);
+                     written := false;
+                     fail_s := fail_s s || fails Sess p; fail_c := fail_c s || fails Cook p |} w)
+        ++ flat_map plain r
+    end.
 Proof.
   revert s; induction p as [|o r IH]; intros s H; simpl; auto.
-  destruct o as [[|] e d|c d|b d|st k]; simpl.
+  assert (WR : is_write o = true ->
+    (let '(s', t) := step s o in t ++ run s' r) =
+    snd (step {| ps := ps s ++ []; pc := pc s ++ []; written := false;
+                 fail_s := fail_s s || false; fail_c := fail_c s || false |} o) ++
+    flat_map plain r).
+  { intros W. rewrite !app_nil_r, !orb_false_r.
+    replace {| ps := ps s; pc := pc s; written := false; fail_s := fail_s s; fail_c := fail_c s |}
+      with s by (destruct s; simpl in *; subst; reflexivity).
+    pose proof (step_write_written s o W) as HW.
+    destruct (step s o) as [s' t]; simpl in *. rewrite run_written by exact HW. reflexivity. }
+  destruct o as [[|] e d|c d|b d|st k|[|]]; try (apply WR; reflexivity); unfold fails; simpl.
   - rewrite IH by (simpl; auto). simpl. rewrite <- !app_assoc. reflexivity.
   - rewrite IH by (simpl; auto). simpl. rewrite <- !app_assoc. reflexivity.
-  - rewrite H. simpl. rewrite run_written by reflexivity.
-    rewrite !app_nil_r, <- app_assoc. reflexivity.
-  - rewrite H. simpl. rewrite run_written by reflexivity.
-    rewrite !app_nil_r, <- app_assoc. reflexivity.
   - rewrite IH by auto. reflexivity.
+  - rewrite IH by (simpl; auto). simpl. rewrite !orb_true_r. reflexivity.
+  - rewrite IH by (simpl; auto). simpl. rewrite !orb_true_r. reflexivity.
 Qed.
 
-Lemma c11_trace_lemma p : cs_trace sess0 cook0 p = c11_spec sess0 cook0 p.
+(* the model's trace is the general equation, for every program *)
+Lemma c11_trace_lemma p : cs_trace sess0 cook0 p = c11_spec_f sess0 cook0 p.
 Proof.
-  unfold cs_trace, c11_spec. rewrite run_gen by reflexivity. simpl.
-  rewrite flush_eq. unfold store_calls.
-  destruct (existsb is_write p); [|reflexivity].
+  unfold cs_trace, c11_spec_f. rewrite run_gen by reflexivity. f_equal.
+  destruct (post p) as [|w r] eqn:EP; [reflexivity|]. f_equal.
+  pose proof (post_hd _ _ _ EP) as W. simpl. unfold call.
+  destruct w; try discriminate W; simpl;
+    destruct (evs_of Sess (pre p)), (evs_of Cook (pre p)), (fails Sess p), (fails Cook p);
+    reflexivity.
+Qed.
+
+(* ---- fault-free programs: the general equation is the old one ---- *)
+
+Lemma no_fail_fails st p : no_fail p = true -> fails st p = false.
+Proof.
+  unfold no_fail, fails. rewrite negb_true_iff.
+  induction p as [|o p IH]; simpl; auto.
+  rewrite orb_false_iff. intros [H1 H2].
+  destruct (is_write o); simpl; auto. rewrite IH by auto.
+  destruct o; simpl in *; auto; discriminate.
+Qed.
+
+Lemma existsb_write_post p :
+  existsb is_write p = match post p with [] => false | _ => true end.
+Proof.
+  induction p as [|o p IH]; simpl; auto. destruct (is_write o); simpl; auto.
+Qed.
+
+Lemma spec_f_fault_free p : no_fail p = true -> c11_spec_f sess0 cook0 p = c11_spec sess0 cook0 p.
+Proof.
+  intros NF. unfold c11_spec_f, c11_spec. f_equal. rewrite existsb_write_post.
+  destruct (post p) as [|w r]; [reflexivity|].
+  unfold call, store_calls. rewrite !(no_fail_fails _ _ NF).
   destruct (evs_of Sess (pre p)), (evs_of Cook (pre p)); reflexivity.
 Qed.
 
-(* ---- corollaries spelled out ---- *)
+Lemma c11_fault_free_lemma p : no_fail p = true ->
+  cs_trace sess0 cook0 p = c11_spec sess0 cook0 p.
+Proof. intros NF. rewrite c11_trace_lemma. apply spec_f_fault_free, NF. Qed.
+
+(* ---- the pieces of the trace ---- *)
 
 Lemma plain_no_store st q : filter (is_store st) (flat_map plain q) = [].
 Proof. induction q as [|o q IH]; simpl; auto. destruct o; simpl; auto. Qed.
 
-Lemma store_calls_filter st q :
-  length (filter (is_store st) (store_calls q)) <= 1.
-Proof.
-  unfold store_calls. destruct (evs_of Sess q), (evs_of Cook q), st; simpl; lia.
-Qed.
+Lemma plain_no_anystore q : existsb is_anystore (flat_map plain q) = false.
+Proof. induction q as [|o q IH]; simpl; auto. destruct o; simpl; auto. Qed.
 
-(* at most one call per store, however many writes the program makes *)
-Lemma c11_at_most_once_lemma st p :
-  length (filter (is_store st) (cs_trace sess0 cook0 p)) <= 1.
-Proof.
-  rewrite c11_trace_lemma. unfold c11_spec.
-  rewrite !filter_app, !plain_no_store. simpl. rewrite app_nil_r.
-  destruct (existsb is_write p); [apply store_calls_filter|simpl; lia].
-Qed.
+Lemma plain_no_failure q : filter is_failure (flat_map plain q) = [].
+Proof. induction q as [|o q IH]; simpl; auto. destruct o; simpl; auto. Qed.
+
+Lemma plain_no_failure_b q : existsb is_failure (flat_map plain q) = false.
+Proof. induction q as [|o q IH]; simpl; auto. destruct o; simpl; auto. Qed.
 
 Lemma pre_no_release q : filter is_release (flat_map plain (pre q)) = [].
 Proof.
   induction q as [|o q IH]; simpl; auto.
   destruct o; simpl; auto.
+Qed.
+
+Lemma pre_no_release_b q : existsb is_release (flat_map plain (pre q)) = false.
+Proof.
+  induction q as [|o q IH]; simpl; auto.
+  destruct o; simpl; auto.
+Qed.
+
+Lemma pre_no_wout q : filter is_wout (flat_map plain (pre q)) = [].
+Proof.
+  induction q as [|o q IH]; simpl; auto.
+  destruct o; simpl; auto.
+Qed.
+
+Lemma plain_not_in_store st l q : ~ In (TStore st l) (flat_map plain q).
+Proof.
+  induction q as [|o q IH]; simpl; auto. rewrite in_app_iff. intros [H|H]; auto.
+  destruct o; simpl in H; [destruct H|destruct H as [H|[]]; discriminate..|destruct H].
+Qed.
+
+Lemma existsb_filter_nil {A} (f : A -> bool) l : existsb f l = false -> filter f l = [].
+Proof.
+  induction l as [|x l IH]; simpl; auto. destruct (f x); simpl; [discriminate|auto].
+Qed.
+
+Lemma after_app_none a x y : existsb a x = false -> after a (x ++ y) = after a y.
+Proof.
+  induction x as [|o x IH]; simpl; auto. destruct (a o); simpl; [discriminate|auto].
+Qed.
+
+Lemma existsb_after a c y : existsb c y = false -> existsb c (after a y) = false.
+Proof.
+  induction y as [|o y IH]; simpl; auto. rewrite orb_false_iff. intros [H1 H2].
+  destruct (a o); auto.
+Qed.
+
+(* Case analysis used by everything below: the trace is the reads of the prefix,
+   then (if there is a write [w]) one of the finitely many shapes of the first write,
+   then the plain effects of the rest [r]. *)
+Ltac shape p w r EP W ES EC FS FC :=
+  rewrite (c11_trace_lemma p) in *; unfold c11_spec_f in *;
+  destruct (post p) as [|w r] eqn:EP;
+  [ idtac
+  | pose proof (post_hd _ _ _ EP) as W; unfold call in *;
+    destruct (evs_of Sess (pre p)) eqn:ES, (evs_of Cook (pre p)) eqn:EC,
+             (fails Sess p) eqn:FS, (fails Cook p) eqn:FC;
+    destruct w; try discriminate W; clear W; simpl app in *; simpl failmark in *;
+    simpl Spec.C11.plain in * ].
+
+(* ---- corollaries spelled out ---- *)
+
+(* at most one call per store, however many writes the program makes, whether or not
+   a store fails *)
+Lemma c11_at_most_once_lemma st p :
+  length (filter (is_store st) (cs_trace sess0 cook0 p)) <= 1.
+Proof.
+  shape p w r EP W ES EC FS FC;
+    rewrite ?filter_app, ?plain_no_store; destruct st; simpl;
+    rewrite ?plain_no_store; simpl; lia.
+Qed.
+
+(* at most one failure is ever reported *)
+Lemma at_most_one_failure p :
+  length (filter is_failure (cs_trace sess0 cook0 p)) <= 1.
+Proof.
+  shape p w r EP W ES EC FS FC;
+    rewrite ?filter_app, ?plain_no_failure; simpl;
+    rewrite ?plain_no_failure; simpl; lia.
+Qed.
+
+Lemma before_release_ok_model p : before_release_ok (cs_trace sess0 cook0 p) = true.
+Proof.
+  unfold before_release_ok.
+  shape p w r EP W ES EC FS FC;
+    rewrite after_app_none by apply pre_no_release_b; simpl;
+    rewrite ?existsb_after by apply plain_no_anystore;
+    rewrite ?plain_no_anystore; reflexivity.
+Qed.
+
+Lemma before_release_split t :
+  before_release_ok t = true ->
+  exists a b, t = a ++ b /\ filter is_release a = [] /\ (forall st, filter (is_store st) b = []).
+Proof.
+  unfold before_release_ok. rewrite negb_true_iff.
+  induction t as [|o t IH]; simpl; intros H.
+  - exists [], []. auto.
+  - destruct (is_release o) eqn:E.
+    + exists [], (o :: t). repeat split; auto. intros st. simpl.
+      replace (is_store st o) with false by (destruct o; simpl in *; auto; discriminate).
+      apply existsb_filter_nil.
+      clear -H. induction t as [|x t IH]; simpl in *; auto.
+      apply orb_false_iff in H. destruct H as [H1 H2]. rewrite IH by auto.
+      destruct x; simpl in *; auto. discriminate.
+    + destruct (IH H) as (a & b & -> & Ha & Hb).
+      exists (o :: a), b. simpl. rewrite E. auto.
 Qed.
 
 (* every store call precedes every header or body byte: the trace splits into a
@@ -81,45 +239,57 @@ Lemma c11_before_release_lemma p :
   exists a b, cs_trace sess0 cook0 p = a ++ b /\
               filter is_release a = [] /\
               (forall st, filter (is_store st) b = []).
-Proof.
-  rewrite c11_trace_lemma. unfold c11_spec.
-  exists (flat_map plain (pre p) ++ (if existsb is_write p then store_calls (pre p) else [])),
-         (flat_map plain (post p)).
-  split; [rewrite app_assoc; reflexivity|]. split.
-  - rewrite filter_app, pre_no_release. simpl.
-    destruct (existsb is_write p); auto.
-    unfold store_calls. destruct (evs_of Sess (pre p)), (evs_of Cook (pre p)); reflexivity.
-  - intros st. apply plain_no_store.
-Qed.
+Proof. apply before_release_split, before_release_ok_model. Qed.
 
 (* each store receives exactly its own events made before the first write, in order *)
 Lemma c11_delivered_lemma st p l :
   In (TStore st l) (cs_trace sess0 cook0 p) -> l = evs_of st (pre p) /\ l <> [].
 Proof.
-  rewrite c11_trace_lemma. unfold c11_spec. rewrite !in_app_iff.
-  assert (NP : forall q, ~ In (TStore st l) (flat_map plain q)).
-  { induction q as [|o q IH]; simpl; auto. rewrite in_app_iff. intros [H|H]; auto.
-    destruct o; simpl in H; [destruct H|destruct H as [H|[]]; discriminate..]. }
-  intros [H|[H|H]]; try (exfalso; eapply NP; eauto; fail).
-  destruct (existsb is_write p); [|destruct H].
-  unfold store_calls in H. rewrite in_app_iff in H.
-  destruct H as [H|H].
-  - destruct (evs_of Sess (pre p)) eqn:E; [destruct H|].
-    destruct H as [H|[]]. inversion H; subst. rewrite E. split; [auto|discriminate].
-  - destruct (evs_of Cook (pre p)) eqn:E; [destruct H|].
-    destruct H as [H|[]]. inversion H; subst. rewrite E. split; [auto|discriminate].
+  intros H.
+  shape p w r EP W ES EC FS FC;
+    rewrite in_app_iff in H; destruct H as [H|H];
+    try (exfalso; eapply plain_not_in_store; exact H; fail);
+    simpl in H;
+    repeat (destruct H as [H|H];
+            [first [discriminate H
+                   |inversion H; subst; split; [symmetry; assumption|discriminate]]|]);
+    try (exfalso; eapply plain_not_in_store; exact H; fail); destruct H.
 Qed.
 
-(* if the handler writes at all, every non-empty pre-write change list IS delivered *)
+(* if the handler writes at all, every non-empty pre-write change list IS delivered
+   (the call is made even if it then fails) — except the cookie list when the session
+   call failed *)
 Lemma c11_delivery_complete_lemma st p :
+  existsb is_write p = true -> evs_of st (pre p) <> [] ->
+  (st = Sess \/ evs_of Sess (pre p) = [] \/ fails Sess p = false) ->
+  In (TStore st (evs_of st (pre p))) (cs_trace sess0 cook0 p).
+Proof.
+  intros W N C. rewrite existsb_write_post in W.
+  shape p w r EP W' ES EC FS FC; try discriminate W;
+    rewrite in_app_iff; right;
+    destruct st; rewrite ?ES, ?EC in *; try congruence;
+    try (destruct C as [C|[C|C]]; discriminate C);
+    simpl; auto.
+Qed.
+
+Lemma c11_delivery_complete_fault_free st p :
+  no_fail p = true ->
   existsb is_write p = true -> evs_of st (pre p) <> [] ->
   In (TStore st (evs_of st (pre p))) (cs_trace sess0 cook0 p).
 Proof.
-  intros W N. rewrite c11_trace_lemma. unfold c11_spec. rewrite W.
-  rewrite !in_app_iff. right. left. unfold store_calls. rewrite in_app_iff.
-  destruct st.
-  - left. destruct (evs_of Sess (pre p)); [congruence|left; reflexivity].
-  - right. destruct (evs_of Cook (pre p)); [congruence|left; reflexivity].
+  intros NF W N. apply c11_delivery_complete_lemma; auto.
+  right. right. apply no_fail_fails, NF.
+Qed.
+
+Lemma plain_get q st k v : In (TGet st k v) (flat_map plain q) -> v = getst sess0 cook0 st k.
+Proof.
+  induction q as [|o q IH]; simpl; [tauto|]. rewrite in_app_iff. intros [H|H]; auto.
+  destruct o as [s e d|c d|b d|s k'|s]; simpl in H.
+  - destruct H.
+  - destruct H as [H|[]]; discriminate.
+  - destruct H as [H|[]]; discriminate.
+  - destruct H as [H|[]]. inversion H; subst; reflexivity.
+  - destruct H.
 Qed.
 
 (* reads are stable: whatever the program did before, a Get returns the
@@ -127,34 +297,219 @@ Qed.
 Lemma c11_reads_stable_lemma p st k v :
   In (TGet st k v) (cs_trace sess0 cook0 p) -> v = getst sess0 cook0 st k.
 Proof.
-  rewrite c11_trace_lemma. unfold c11_spec. rewrite !in_app_iff.
-  assert (NP : forall q, In (TGet st k v) (flat_map plain q) -> v = getst sess0 cook0 st k).
-  { induction q as [|o q IH]; simpl; [tauto|]. rewrite in_app_iff. intros [H|H]; auto.
-    destruct o as [s e d|c d|b d|s k']; simpl in H.
-    - destruct H.
-    - destruct H as [H|[]]; discriminate.
-    - destruct H as [H|[]]; discriminate.
-    - destruct H as [H|[]]. inversion H; subst; reflexivity. }
-  intros [H|[H|H]]; [eapply NP; exact H| |eapply NP; exact H].
-  destruct (existsb is_write p); [|destruct H].
-  unfold store_calls in H.
-  destruct (evs_of Sess (pre p)), (evs_of Cook (pre p)); simpl in H;
-    repeat (destruct H as [H|H]; [discriminate|]); destruct H.
+  intros H.
+  shape p w r EP W ES EC FS FC;
+    rewrite in_app_iff in H; destruct H as [H|H];
+    try (eapply plain_get; exact H; fail);
+    simpl in H;
+    repeat (destruct H as [H|H]; [discriminate H|]);
+    try (eapply plain_get; exact H; fail); destruct H.
+Qed.
+
+(* ---- the predicate of the correspondence check holds of the model ---- *)
+
+Lemma evs_eqb_refl l : list_eqb csevent_eqb l l = true.
+Proof.
+  induction l as [|e l IH]; simpl; auto. rewrite IH, andb_true_r.
+  destruct e; simpl; rewrite ?beqb_refl; reflexivity.
 Qed.
 
 Lemma trace_eqb_refl t : trace_eqb t t = true.
 Proof.
-  assert (E : forall l, list_eqb csevent_eqb l l = true).
-  { induction l as [|e l IH]; simpl; auto. rewrite IH, andb_true_r.
-    destruct e; simpl; rewrite ?beqb_refl; reflexivity. }
   unfold trace_eqb. induction t as [|o t IH]; simpl; auto. rewrite IH, andb_true_r.
-  destruct o as [s l|c|b|s k v]; simpl.
-  - rewrite E. destruct s; reflexivity.
+  destruct o as [s l|c|b|s k v| |]; simpl; auto.
+  - rewrite evs_eqb_refl. destruct s; reflexivity.
   - apply Z.eqb_refl.
   - apply beqb_refl.
   - rewrite beqb_refl. destruct s, v; simpl; rewrite ?beqb_refl; reflexivity.
 Qed.
 
+Lemma once_ok_model p : once_ok (cs_trace sess0 cook0 p) = true.
+Proof.
+  unfold once_ok. rewrite andb_true_iff, !Nat.leb_le.
+  split; apply c11_at_most_once_lemma.
+Qed.
+
+Lemma delivered_ok_model p : delivered_ok p (cs_trace sess0 cook0 p) = true.
+Proof.
+  unfold delivered_ok. apply forallb_forall. intros o Ho. destruct o; auto.
+  apply c11_delivered_lemma in Ho. destruct Ho as [-> N]. rewrite evs_eqb_refl.
+  destruct (evs_of s (pre p)); [congruence|reflexivity].
+Qed.
+
+Lemma complete_ok_model p : complete_ok p (cs_trace sess0 cook0 p) = true.
+Proof.
+  unfold complete_ok, sess_call_fails.
+  destruct (existsb is_write p) eqn:W; [simpl|reflexivity].
+  assert (D : forall st, evs_of st (pre p) <> [] ->
+            (st = Sess \/ evs_of Sess (pre p) = [] \/ fails Sess p = false) ->
+            existsb (is_store st) (cs_trace sess0 cook0 p) = true).
+  { intros st N C. apply existsb_exists. exists (TStore st (evs_of st (pre p))).
+    split; [apply c11_delivery_complete_lemma; auto|]. destruct st; reflexivity. }
+  apply andb_true_iff; split.
+  - destruct (evs_of Sess (pre p)) eqn:ES; [reflexivity|]. simpl.
+    apply D; [rewrite ES; discriminate|auto].
+  - destruct (evs_of Cook (pre p)) eqn:EC; [reflexivity|]. simpl.
+    destruct (evs_of Sess (pre p)) eqn:ES; simpl.
+    + apply D; [rewrite EC; discriminate|auto].
+    + destruct (fails Sess p) eqn:FS; [reflexivity|]. simpl.
+      apply D; [rewrite EC; discriminate|auto].
+Qed.
+
+Lemma reads_ok_model p : reads_ok sess0 cook0 (cs_trace sess0 cook0 p) = true.
+Proof.
+  unfold reads_ok. apply forallb_forall. intros o Ho. destruct o; auto.
+  apply c11_reads_stable_lemma in Ho. subst v.
+  destruct (getst sess0 cook0 s k); simpl; auto. apply beqb_refl.
+Qed.
+
+Lemma plain_no_store_b st q : existsb (is_store st) (flat_map plain q) = false.
+Proof. induction q as [|o q IH]; simpl; auto. destruct o; simpl; auto. Qed.
+
+Lemma sess_first_ok_model p : sess_first_ok (cs_trace sess0 cook0 p) = true.
+Proof.
+  unfold sess_first_ok.
+  shape p w r EP W ES EC FS FC;
+    rewrite after_app_none by apply plain_no_store_b; simpl;
+    rewrite ?existsb_after by apply plain_no_store_b;
+    rewrite ?plain_no_store_b; reflexivity.
+Qed.
+
+Lemma not_retried_ok_model p : not_retried_ok (cs_trace sess0 cook0 p) = true.
+Proof.
+  unfold not_retried_ok.
+  shape p w r EP W ES EC FS FC;
+    rewrite after_app_none by apply plain_no_failure_b; simpl;
+    rewrite ?existsb_after by apply plain_no_anystore;
+    rewrite ?plain_no_anystore; reflexivity.
+Qed.
+
+Lemma marks_plain p q rest :
+  marks_ok p None (flat_map plain q ++ rest) = marks_ok p None rest.
+Proof.
+  induction q as [|o q IH]; simpl; auto. destruct o; simpl; auto.
+Qed.
+
+Lemma marks_plain_nil p q : marks_ok p None (flat_map plain q) = true.
+Proof. rewrite <- (app_nil_r (flat_map plain q)), marks_plain. reflexivity. Qed.
+
+Lemma marks_ok_model p : marks_ok p None (cs_trace sess0 cook0 p) = true.
+Proof.
+  shape p w r EP W ES EC FS FC;
+    rewrite marks_plain; simpl; rewrite ?FS, ?FC; simpl;
+    rewrite ?marks_plain_nil; reflexivity.
+Qed.
+
+Lemma filter_write_post p : filter is_write p = filter is_write (post p).
+Proof.
+  induction p as [|o p IH]; simpl; auto. destruct (is_write o) eqn:E; simpl; auto.
+  rewrite E. reflexivity.
+Qed.
+
+Lemma all2_plain r :
+  all2 wmatch (filter is_write r) (filter is_wout (flat_map plain r)) = true.
+Proof.
+  induction r as [|o r IH]; simpl; auto.
+  destruct o; simpl; auto; rewrite IH, andb_true_r; [apply Z.eqb_refl|apply beqb_refl].
+Qed.
+
+Lemma writes_ok_model p : writes_ok p (cs_trace sess0 cook0 p) = true.
+Proof.
+  unfold writes_ok. rewrite filter_write_post.
+  shape p w r EP W ES EC FS FC;
+    rewrite filter_app, pre_no_wout; simpl;
+    rewrite ?all2_plain, ?Z.eqb_refl, ?beqb_refl; reflexivity.
+Qed.
+
 Lemma c11_model_ok_lemma p : c11_ok sess0 cook0 p (cs_trace sess0 cook0 p) = true.
-Proof. unfold c11_ok. rewrite c11_trace_lemma. apply trace_eqb_refl. Qed.
+Proof.
+  unfold c11_ok.
+  rewrite once_ok_model, delivered_ok_model, complete_ok_model, sess_first_ok_model, before_release_ok_model,
+          reads_ok_model, marks_ok_model, not_retried_ok_model, writes_ok_model. simpl.
+  destruct (no_fail p) eqn:NF; [|reflexivity].
+  rewrite c11_fault_free_lemma by exact NF. apply trace_eqb_refl.
+Qed.
+
+(* ---- the failure path ---- *)
+
+Lemma split_unique {A} (P : A -> bool) a o r a' o' r' :
+  a ++ o :: r = a' ++ o' :: r' -> P o = true -> P o' = true ->
+  filter P a = [] -> filter P a' = [] -> a = a' /\ o = o' /\ r = r'.
+Proof.
+  revert a'; induction a as [|x a IH]; intros [|x' a'] H Po Po' Fa Fa'; simpl in *.
+  - inversion H; auto.
+  - inversion H; subst. rewrite Po in Fa'. discriminate.
+  - inversion H; subst. rewrite Po' in Fa. discriminate.
+  - inversion H; subst. destruct (P x'); [discriminate|].
+    destruct (IH a' H2 Po Po' Fa Fa') as (-> & -> & ->). auto.
+Qed.
+
+Lemma filter_prefix_nil {A} (P : A -> bool) a o r :
+  length (filter P (a ++ o :: r)) <= 1 -> P o = true -> filter P a = [].
+Proof.
+  rewrite filter_app. simpl. intros H Po. rewrite Po, app_length in H. simpl in H.
+  destruct (filter P a); [reflexivity|simpl in H; lia].
+Qed.
+
+(* If the session call of the flush fails, the cookie store is never called, nothing
+   before the call was released, and everything after the error is the plain effect
+   of the operations AFTER the triggering write: that write released nothing. *)
+Lemma c11_failed_session_store_lemma p a l f b :
+  cs_trace sess0 cook0 p = a ++ TStore Sess l :: f :: b -> is_failure f = true ->
+  (forall l', ~ In (TStore Cook l') (cs_trace sess0 cook0 p)) /\
+  a = flat_map plain (pre p) /\ filter is_release a = [] /\
+  b = flat_map plain (tl (post p)).
+Proof.
+  intros H F.
+  assert (Fa : filter (is_store Sess) a = []).
+  { apply (filter_prefix_nil _ a (TStore Sess l) (f :: b)); [|reflexivity].
+    rewrite <- H. apply c11_at_most_once_lemma. }
+  assert (NS : forall q x y, flat_map plain q = x ++ TStore Sess l :: y -> False).
+  { intros q x y E. apply (plain_not_in_store Sess l q). rewrite E, in_app_iff. right. left. auto. }
+  shape p w r EP W ES EC FS FC;
+    try (exfalso; rewrite app_nil_r in H; eapply NS; exact H; fail);
+    try (apply (f_equal (filter (is_store Sess))) in H;
+         rewrite !filter_app, plain_no_store, Fa in H; simpl in H;
+         rewrite ?plain_no_store in H; discriminate H);
+    (apply (split_unique (is_store Sess)) in H;
+       [|reflexivity|reflexivity|apply plain_no_store|exact Fa]);
+    destruct H as (<- & H1 & H2); inversion H2; subst; try discriminate F;
+    (split; [|split; [reflexivity|split; [apply pre_no_release|reflexivity]]]);
+    intros l' HI; rewrite in_app_iff in HI; destruct HI as [HI|HI];
+    try (eapply plain_not_in_store; exact HI);
+    simpl in HI; repeat (destruct HI as [HI|HI]; [discriminate HI|]);
+    eapply plain_not_in_store; exact HI.
+Qed.
+
+(* After a failed flush every later operation goes straight to the underlying writer:
+   no store is called again, the events are not delivered a second time. *)
+Lemma c11_failed_flush_not_retried_lemma p a f b :
+  cs_trace sess0 cook0 p = a ++ f :: b -> is_failure f = true ->
+  b = flat_map plain (tl (post p)) /\ (forall st, filter (is_store st) b = []).
+Proof.
+  intros H F.
+  assert (Fa : filter is_failure a = []).
+  { apply (filter_prefix_nil _ a f b); [|exact F]. rewrite <- H. apply at_most_one_failure. }
+  assert (E : b = flat_map plain (tl (post p))); [|split; [exact E|intros st; rewrite E; apply plain_no_store]].
+  assert (NS : forall q, flat_map plain q = a ++ f :: b -> False).
+  { intros q E. pose proof (plain_no_failure q) as N. rewrite E, filter_app in N. simpl in N.
+    rewrite F in N. destruct (filter is_failure a); discriminate N. }
+  shape p w r EP W ES EC FS FC;
+    try (exfalso; rewrite app_nil_r in H; eapply NS; exact H; fail);
+    try (exfalso; apply (f_equal (filter is_failure)) in H;
+         rewrite !filter_app, plain_no_failure, Fa in H; simpl in H;
+         rewrite ?plain_no_failure, F in H; discriminate H).
+  all: simpl.
+  all: match type of H with
+       | ?A ++ ?x :: ?g :: ?B = _ =>
+           (change (A ++ x :: g :: B) with (A ++ [x] ++ g :: B) in H; rewrite app_assoc in H;
+            apply (split_unique is_failure) in H;
+            [|reflexivity|exact F|rewrite filter_app, plain_no_failure; reflexivity|exact Fa])
+       | ?A ++ ?x :: ?y :: ?g :: ?B = _ =>
+           (change (A ++ x :: y :: g :: B) with (A ++ [x; y] ++ g :: B) in H; rewrite app_assoc in H;
+            apply (split_unique is_failure) in H;
+            [|reflexivity|exact F|rewrite filter_app, plain_no_failure; reflexivity|exact Fa])
+       end.
+  all: destruct H as (_ & _ & <-); reflexivity.
+Qed.
 End P.
